@@ -29,8 +29,12 @@ int main(void) {
 	ir_lo = base; ir_hi = base + IN.len + 1; ir_slo = 0; ir_shi = 0;
 	uint64_t r = FN(base);
 #endif
+#ifdef RESULT_IS_FLAGS
+	CHECK(r <= 15, "alignment scanner returns a set of ALIGN_* flags");
+#else
 	CHECK(r <= IN.len + 1, "scanner result lies inside the buffer");
-	COVER(r > 0); COVER(IN.len == N);
+#endif
+	COVER_OPT(r > 0); COVER(IN.len == N);
 	COVER(1);
 	return 0;
 }
